@@ -73,6 +73,10 @@ const (
 	HopDyn
 	HopNative
 	HopSelf // LoadScript of the entry script's own bytes
+	// HopReward: the contract frame calls NEO.transfer(self, self, 0): NEO makes GAS mint the frame's pending reward and
+	// GAS calls onNEP17Payment of the contract ON BEHALF OF NEO: the callback's calling script hash is GAS although
+	// the context below it is NEO's (GAS has no context on the invocation stack).
+	HopReward
 )
 
 // Kinds inside the path interpreted by body.
@@ -83,6 +87,7 @@ const (
 	skGasLeaf
 	skSelf
 	skMutate
+	skReward
 )
 
 // Mutation ops.
@@ -144,7 +149,23 @@ func emitBody(b *asm.B) {
 	kind(skGasLeaf, "gasleaf")
 	kind(skSelf, "self")
 	kind(skMutate, "mutate")
+	kind(skReward, "reward")
 	b.Op(opcode.ABORT)
+
+	// reward: the rest of the path waits in the contract's storage for the callback of the GAS mint (its data is null)
+	b.Label(l("reward"))
+	packArgs()
+	b.Op(opcode.PUSH1, opcode.PACK)
+	b.Int(int64(callflag.All)).Str("serialize").Bytes(nativehashes.StdLib.BytesBE())
+	b.Syscall("System.Contract.Call")
+	b.Str("p").Syscall("System.Storage.GetContext").Syscall("System.Storage.Put")
+	b.Op(opcode.PUSHNULL, opcode.PUSH0)
+	b.Syscall("System.Runtime.GetExecutingScriptHash")
+	b.Syscall("System.Runtime.GetExecutingScriptHash")
+	b.Op(opcode.PUSH4, opcode.PACK)
+	b.Int(int64(callflag.All)).Str("transfer").Bytes(nativehashes.NeoToken.BytesBE())
+	b.Syscall("System.Contract.Call").Op(opcode.ASSERT)
+	b.Op(opcode.PUSHNULL, opcode.RET) // the result travels in the "E" notification of the callback
 
 	b.Label(l("self"))
 	packArgs()
@@ -205,6 +226,20 @@ func buildContract(name string, opts ...asm.ManifestOpt) (*asm.Contract, error) 
 	b.Label("onNEP17Payment")
 	b.InitSlot(0, 3)
 	b.Op(opcode.LDARG2, opcode.ISNULL).Jmp(opcode.JMPIFNOTL, "pay_run")
+	// no data: a plain payment, or (no sender: a mint) the GAS reward of a HopReward whose path waits in the storage
+	b.Op(opcode.LDARG0, opcode.ISNULL).Jmp(opcode.JMPIFNOTL, "pay_ret")
+	b.Str("p").Syscall("System.Storage.GetContext").Syscall("System.Storage.Get")
+	b.Op(opcode.DUP, opcode.ISNULL).Jmp(opcode.JMPIFL, "pay_drop")
+	b.Str("p").Syscall("System.Storage.GetContext").Syscall("System.Storage.Delete")
+	b.Op(opcode.PUSH1, opcode.PACK)
+	b.Int(int64(callflag.All)).Str("deserialize").Bytes(nativehashes.StdLib.BytesBE())
+	b.Syscall("System.Contract.Call")
+	b.Op(opcode.DUP, opcode.PUSH1, opcode.PICKITEM, opcode.SWAP, opcode.PUSH0, opcode.PICKITEM)
+	b.Jmp(opcode.CALLL, "fwd")
+	b.Op(opcode.PUSH1, opcode.PACK).Str("E").Syscall("System.Runtime.Notify").Op(opcode.RET)
+	b.Label("pay_drop")
+	b.Op(opcode.DROP)
+	b.Label("pay_ret")
 	b.Op(opcode.RET)
 	b.Label("pay_run")
 	b.Op(opcode.LDARG2, opcode.PUSH1, opcode.PICKITEM, opcode.LDARG2, opcode.PUSH0, opcode.PICKITEM)
@@ -288,6 +323,26 @@ func buildWorld() (*world, error) {
 	}
 	if len(b.Rejected) != 0 {
 		return nil, fmt.Errorf("deploy transactions rejected: %v", b.Rejected)
+	}
+	// The contracts hold NEO: every later block accrues a GAS reward for them (HopReward pays it out).
+	var neo ck.BlockSpec
+	for i, h := range w.contracts {
+		bw := io.NewBufBinWriter()
+		emit.AppCall(bw.BinWriter, nativehashes.NeoToken, "transfer", callflag.All, sender, h, int64(100), nil)
+		emit.Opcodes(bw.BinWriter, opcode.ASSERT)
+		neo.Txs = append(neo.Txs, ck.Action{Kind: "raw", From: deployer, V: bw.Bytes(), Nonce: uint32(2000 + i)})
+	}
+	neo.TimeD = 1000
+	if _, _, err := b.BuildBlock(neo); err != nil {
+		return nil, fmt.Errorf("NEO block: %v", err)
+	}
+	if len(b.Rejected) != 0 {
+		return nil, fmt.Errorf("NEO transfers rejected: %v", b.Rejected)
+	}
+	for i := 0; i < 2; i++ {
+		if _, _, err := b.BuildBlock(ck.BlockSpec{TimeD: 1000}); err != nil {
+			return nil, fmt.Errorf("empty block: %v", err)
+		}
 	}
 	w.bc = b.N.BC
 	for i, h := range w.contracts {
